@@ -119,7 +119,11 @@ def check_limits(res, what, sig, before, after, converted, one, D, gate_channels
         for side, lim in ((0, r0[0]), (1, r0[1])):
             rows = np.nonzero(b[:, ch] == lim)[0]
             if len(rows) == 0:
-                raise RuntimeError('sample has no event at limit %r of channel %d' % (lim, ch))
+                # the samples are built with events at both limits of the raw file; if an earlier conversion left limits
+                # that no event sits at any more, the limits did not follow the data
+                res.violation(sig + ':limit-without-event', '%s: before this conversion channel %d has limit %r but no event has that value (events were placed at the limits of the raw file)' % (what, ch, lim), one)
+                ok = False
+                continue
             vals = set(bits(a[i, ch]) for i in rows)
             if vals != {bits(r1[side])}:
                 res.violation(sig + ':limit-%s' % ('high' if side else 'low'),
